@@ -3,8 +3,11 @@ package main
 // K1: call resolution, reachability and effect summaries.
 
 import (
+	"fmt"
 	"go/token"
 	"go/types"
+	"os"
+	"runtime/debug"
 	"sort"
 
 	"golang.org/x/tools/go/ssa"
@@ -199,6 +202,9 @@ func (p *Program) Reach(roots ...*ssa.Function) map[*ssa.Function]bool {
 	}
 	for _, r := range roots {
 		if p.rootsUsed != nil && r != nil && IsModuleFunc(r) && !p.auditing {
+			if os.Getenv("HK_ROOTDBG") != "" && r.Name() == os.Getenv("HK_ROOTDBG") && !p.rootsUsed[r] {
+				fmt.Fprintf(os.Stderr, "ROOTDBG %s\n%s\n", r.Name(), debug.Stack())
+			}
 			p.rootsUsed[r] = true
 		}
 		push(r)
